@@ -143,6 +143,17 @@ CASES = [
                "((1, 2), (2, -1), (a1, a2), T2, eps2, rho2), ([c1, c2], [c2, c1]))",
          formula="tuple(extended_activity_product(ionic_strength(c, (2, -1), warn=False), (1, 2), (2, -1), (a1, a2), *p, backend=be) "
                  "for c in ([c1, c2], [c2, c1]) for p in ((T, eps, rho, Cv), (T2, eps2, rho2)))", hints=[PHYS]),
+    # NON-INTEGER stoichiometric weights (reals) together with plain python-int charges
+    dict(name="activity_products_real_weights", targets=["chempy.electrolytes.limiting_activity_product", "chempy.electrolytes.extended_activity_product",
+                                                         "chempy.electrolytes.davies_activity_product"], setup=EL,
+         vars={"I": POS, "w1": (Fraction(1, 10), 3), "w2": (Fraction(1, 10), 3), "a1": POS, "T": POS, "eps": POS, "rho": POS, "Cv": (None, None)},
+         plain="(limiting_activity_product(I, (w1, w2), (2, -1), T, eps, rho, backend=be), "
+               "extended_activity_product(I, [w1, w2], [2, -1], [a1, a1], T, eps, rho, Cv, backend=be), "
+               "davies_activity_product(I, (w1, w2), (2, -1), (1, 1), T, eps, rho, Cv, backend=be))",
+         formula="(be.exp(w1*limiting_log_gamma(I, 2, A(eps, T, rho)) + w2*limiting_log_gamma(I, -1, A(eps, T, rho))), "
+                 "be.exp(w1*extended_log_gamma(I, 2, a1, A(eps, T, rho), B(eps, T, rho), Cv) + w2*extended_log_gamma(I, -1, a1, A(eps, T, rho), B(eps, T, rho), Cv)), "
+                 "be.exp(w1*davies_log_gamma(I, 2, A(eps, T, rho), Cv) + w2*davies_log_gamma(I, -1, A(eps, T, rho), Cv)))",
+         hints=[dict(PHYS, I="1/4", w1="1/3", w2="2/3", a1="1/2000000000")]),
     dict(name="davies_activity_product", targets=["chempy.electrolytes.davies_activity_product"], setup=EL,
          vars={"I": POS, "n_z1": ZR, "n_z2": ZR, "n_nu1": (-3, 3), "n_nu2": (-3, 3), "T": POS, "eps": POS, "rho": POS, "Cv": (None, None)},
          plain="davies_activity_product(I, (n_nu1, n_nu2), (n_z1, n_z2), (1, 1), T, eps, rho, Cv, backend=be)",
@@ -266,6 +277,71 @@ def task_warn(n):
     return res
 
 
+REPLAY_WARN_ARR = '''
+import warnings
+import numpy as np
+from chempy.electrolytes import ionic_strength
+b = %(b)s
+z = %(z)s
+with warnings.catch_warnings(record=True) as w:
+    warnings.simplefilter("always")
+    I = ionic_strength([np.array(col, dtype=object) for col in b], z)
+warned = any("charge neutral" in str(x.message) for x in w)
+nets = [sum(col[s_] * zi for col, zi in zip(b, z)) for s_ in range(2)]
+tots = [sum(col[s_] * zi * zi for col, zi in zip(b, z)) for s_ in range(2)]
+print("b", b, "z", z, "nets", nets, "warned", warned)
+bad = (all(n_ == 0 for n_ in nets) and warned) or (any(abs(n_) > t_ * Fraction(1, 10**12) for n_, t_ in zip(nets, tots)) and not warned)
+bad = bad or any(I[s_] != tots[s_] / 2 for s_ in range(2))
+sys.exit(1 if bad else 0)
+'''
+
+
+def task_warn_arrays(n):
+    """array-valued molalities (one array per ion, one entry per solution): the warning is issued iff SOME solution is not neutral"""
+    import numpy as np
+    from chempy.electrolytes import ionic_strength
+
+    b = [[Real("b%d_%d" % (i, s_)) for s_ in range(2)] for i in range(n)]
+    z = [Int("z%d" % i) for i in range(n)]
+    flat = [v for col in b for v in col]
+    assum = [x.t >= 0 for x in flat] + [x.t >= -4 for x in z] + [x.t <= 4 for x in z]
+
+    def fn():
+        with warnings.catch_warnings(record=True) as w:
+            warnings.simplefilter("always")
+            val = ionic_strength([np.array(col, dtype=object) for col in b], list(z))
+        return val, any("charge neutral" in str(x.message) for x in w)
+
+    nets = [sum(col[s_] * zi for col, zi in zip(b, z)) for s_ in range(2)]
+    tots = [sum(col[s_] * zi * zi for col, zi in zip(b, z)) for s_ in range(2)]
+
+    def goal(p, twin=False):
+        if p.kind == "exc":
+            return False
+        val, warned = p.value
+        if twin:
+            return z3.BoolVal(not warned)
+        c = [eq_term(val[s_], tots[s_] / 2) for s_ in range(2)]
+        absn = [z3.If(lift(nt) >= 0, lift(nt), -lift(nt)) for nt in nets]
+        if warned:
+            c.append(z3.Or(*[lift(nt) != 0 for nt in nets]))
+        else:
+            c.append(z3.And(*[a_ <= z3.Q(1, 10 ** 12) * lift(t_) for a_, t_ in zip(absn, tots)]))
+        return z3.And(*c)
+
+    o = explore_and_prove(fn, assum, goal)
+    ot = explore_and_prove(fn, assum, lambda p: goal(p, True), max_fail=1)
+    res = dict(engine="Z", functions=[env.describe(ionic_strength)], obligations=o.obligations, discharged=o.discharged, violations=[],
+               inconclusive=list(o.inconclusive), queries=o.queries, paths=o.paths, solver_s=o.solver_s, twin=twin_verdict(ot),
+               bounds="%d ions x 2 solutions (object arrays), charges -4..4 symbolic, molalities >= 0" % n,
+               sample={"molalities": "one symbolic array per ion", "oracle": "warned => some solution has net != 0; not warned => every |net| <= 1e-12*sum(b z^2)"})
+    for p, m, g in o.failed[:1]:
+        res["violations"].append(dict(key="ionic_strength_warn_arrays:%s" % p.kind, desc="b=%s z=%s -> %r" % ([concretize(m, col) for col in b], concretize(m, z), p.value),
+                                      replay_src=REPLAY_WARN_ARR % dict(b=pyrepr([concretize(m, col) for col in b]), z=pyrepr(concretize(m, z)))))
+    res["status"] = "violation" if res["violations"] else ("inconclusive" if res["inconclusive"] else "discharged")
+    return res
+
+
 def tasks(tier, seed):
     ts = []
     for c in CASES:
@@ -275,4 +351,5 @@ def tasks(tier, seed):
             ts.append(dict(id="C18.%s" % c["name"], fn="task_case", kwargs=dict(casename=c["name"]), timeout=600))
     for n in ([1, 2, 3] if tier == "quick" else [1, 2, 3, 4]):
         ts.append(dict(id="C18.neutrality_warning.%d" % n, fn="task_warn", kwargs=dict(n=n), timeout=600))
+    ts.append(dict(id="C18.neutrality_warning.arrays", fn="task_warn_arrays", kwargs=dict(n=2), timeout=600))
     return ts
